@@ -76,9 +76,9 @@ def HkFrame (id : Bytes) (now : Nat) (l : FLink F) (x : Nat × Bytes) : Prop :=
    (x.2 = Codec.createReg1 id ∧ l.isTimedOut now = true) ∨
    (x.2 = Codec.createReg2 id ∧ l.isTimedOut now = true))
 
-theorem hkOne_frames (classic : Bool) (now : Nat) (l : FLink F) (i : Nat) (reg : Reg.Reg) :
-    (Keepalive.hkOne classic now l i reg).2.1.id = reg.id ∧
-    ∀ x ∈ (Keepalive.hkOne classic now l i reg).2.2, HkFrame reg.id now l x := by
+theorem hkOne_frames (classic : Bool) (now : Nat) (l : FLink F) (i : Nat) (reg : Reg.Reg) (fb : List Nat) :
+    (Keepalive.hkOne classic now l i reg fb).2.1.id = reg.id ∧
+    ∀ x ∈ (Keepalive.hkOne classic now l i reg fb).2.2, HkFrame reg.id now l x := by
   unfold Keepalive.hkOne
   cases hto : l.isTimedOut now with
   | true =>
@@ -103,15 +103,16 @@ theorem hkOne_frames (classic : Bool) (now : Nat) (l : FLink F) (i : Nat) (reg :
     obtain ⟨rfl, hc⟩ := h3 x hx
     exact ⟨rfl, Or.inl ⟨rfl, hc, hto⟩⟩
 
-theorem hkLinksGo_frames (classic : Bool) (now : Nat) (ls : List (FLink F)) (i : Nat) (reg : Reg.Reg) :
-    (hkLinksGo classic now ls i reg).2.1.id = reg.id ∧
-    ∀ x ∈ (hkLinksGo classic now ls i reg).2.2, ∃ l ∈ ls, HkFrame reg.id now l x := by
-  induction ls generalizing i reg with
+theorem hkLinksGo_frames (classic : Bool) (now : Nat) (ls : List (FLink F)) (i : Nat) (reg : Reg.Reg)
+    (fb : List Nat) :
+    (hkLinksGo classic now ls i reg fb).2.1.id = reg.id ∧
+    ∀ x ∈ (hkLinksGo classic now ls i reg fb).2.2, ∃ l ∈ ls, HkFrame reg.id now l x := by
+  induction ls generalizing i reg fb with
   | nil => simp [hkLinksGo]
   | cons l rest ih =>
     rw [Keepalive.hkLinksGo_cons]
-    obtain ⟨o1, o2⟩ := hkOne_frames classic now l i reg
-    obtain ⟨r1, r2⟩ := ih (i + 1) (Keepalive.hkOne classic now l i reg).2.1
+    obtain ⟨o1, o2⟩ := hkOne_frames classic now l i reg fb
+    obtain ⟨r1, r2⟩ := ih (i + 1) (Keepalive.hkOne classic now l i reg fb).2.1 (Keepalive.hkFbK now fb l)
     dsimp only
     refine ⟨by rw [r1, o1], fun x hx => ?_⟩
     rcases List.mem_append.1 hx with hx | hx
@@ -154,7 +155,7 @@ theorem regDriver_frames (r : Reg.Reg) (now : Nat) :
 theorem hkMid_ids (s : Sys F) (now : Nat) : ids (Keepalive.hkMid s now).1 = ids s.links := by
   obtain ⟨p1, p2⟩ := Keepalive.hkPre_spec s now
   obtain ⟨m1, m2, -, -⟩ :=
-    Keepalive.hkLinksGo_spec s.cfg.classic now (Keepalive.hkPre s now).2 0 (Keepalive.hkPre s now).1
+    Keepalive.hkLinksGo_spec s.cfg.classic now (Keepalive.hkPre s now).2 0 (Keepalive.hkPre s now).1 s.failBind
   apply ids_eq_of_get
   · show (Keepalive.hkMid s now).1.length = _
     unfold Keepalive.hkMid; rw [m1, p1]
@@ -176,6 +177,7 @@ theorem hk_wire_ctl (s : Sys F) (now : Nat) :
   rw [Keepalive.handleHousekeeping_wire]
   obtain ⟨p1, p2⟩ := Keepalive.hkPre_spec s now
   obtain ⟨f1, f2⟩ := hkLinksGo_frames s.cfg.classic now (Keepalive.hkPre s now).2 0 (Keepalive.hkPre s now).1
+    s.failBind
   rw [hkPre_id] at f1 f2
   have hmid := hkMid_ids s now
   have hdrv := regDriver_frames
@@ -349,7 +351,8 @@ def Reg3On (s : Sys F) (e : Ev) (j : Nat) : Prop :=
 * `client`: a threshold flush on this link failed (a pending send failure for its conn id was consumed)
   and `mark_for_recovery` ran;
 * `uplink`: a REG_ERR (type 0x9210) arrived on this link's socket — `mark_for_recovery`;
-* `hk`: the link is timed out and due for a reconnect attempt — `reset_for_reconnect`. -/
+* `hk`: the link is timed out and due for a reconnect attempt — `reset_for_reconnect`, or
+  `mark_for_recovery` when the socket re-creation fails. -/
 def TearsDown (s : Sys F) (e : Ev) (j : Nat) : Prop :=
   ∃ l l', s.links[j]? = some l ∧ (step s e).1.links[j]? = some l' ∧
     ((∃ now pkt, e = .client now pkt ∧
@@ -397,6 +400,11 @@ theorem phase_step (s : Sys F) (e : Ev) (j : Nat) (l : FLink F) (hl : s.links[j]
       obtain ⟨r1, -, -, -, r5, r6, -, -, -, r10⟩ := Hk.reconnectLink_fields l now
       exact ⟨r5, Or.inr (Or.inr ⟨⟨l, _, hl, hl', Or.inr (Or.inr ⟨now, he, hto, hsa, r1, r6, r10.connected⟩)⟩,
         r6, r10.connected⟩)⟩
+    | attemptFailed now he hto hsa _ hx =>
+      obtain ⟨t, rfl⟩ := hx
+      obtain ⟨r1, -, -, -, r5, r6, -, -, r9⟩ := Hk.failedLink_fields l now
+      exact ⟨r5, Or.inr (Or.inr ⟨⟨l, _, hl, hl', Or.inr (Or.inr ⟨now, he, hto, hsa, r1, r6, r9.connected⟩)⟩,
+        r6, r9.connected⟩)⟩
   cases e with
   | uplink now cid data =>
     obtain ⟨h1, -⟩ := Hk.uplink_links s cid data now
@@ -437,6 +445,9 @@ theorem phase_step (s : Sys F) (e : Ev) (j : Nat) (l : FLink F) (hl : s.links[j]
     exact ⟨l', hl', hgen l' hl' hs (fun _ _ _ h => by cases h)⟩
   | failNext c =>
     obtain ⟨l', hl', hs⟩ := (Hk.step_link s (.failNext c)).1 j l hl
+    exact ⟨l', hl', hgen l' hl' hs (fun _ _ _ h => by cases h)⟩
+  | failBind c =>
+    obtain ⟨l', hl', hs⟩ := (Hk.step_link s (.failBind c)).1 j l hl
     exact ⟨l', hl', hgen l' hl' hs (fun _ _ _ h => by cases h)⟩
 
 /-- The registration status of link `j` as a fold over the history: set by a REG3 on the link, cleared by a
